@@ -93,6 +93,12 @@ def gen_case(g, kind):
             continue
         taken |= slots
         instrs.append(Instr(nm, "trait", ty=cp, hint=None, err=r.choice(ERR_FORMS) if fal else None, params=[]))
+    if g.chance(0.2):
+        # `repeat()` on at most one instruction per name (an instruction name and its try_ twin are different names and may each carry one):
+        # nothing is there to be inherited, the set of impls stays what the instructions say
+        for nm in sorted({a.name for a in instrs}):
+            if g.chance(0.6):
+                r.choice([a for a in instrs if a.name == nm]).f["params"] = [("repeat", [])]
     it = Item(kind, "S", shape="named")
     if kind == "struct":
         it.fields = [Field("a", "i32"), Field("b", "u8")]
